@@ -3,9 +3,13 @@
 
   `harness/translate.py` regenerates, on every run, `JS/Generated/Source.lean` from the working tree's
   `jsonschema/_validators.py` and `_legacy_validators.py` (one `JS.Py.Fn` term per keyword function;
-  `JS/Py/IR.lean`), and `JS.Py.Fn.run` (`JS/Py/Interp.lean`) gives those terms Python's meaning. The
-  theorems below say, for each of the 30 translated functions, that the interpreted source and the
-  hand-written model function (`JS/Keywords.lean`, about which every property theorem is proved) are
+  `JS/Py/IR.lean`), and `JS.Py.Fn.run` (`JS/Py/Interp.lean`) gives those terms Python's meaning; the
+  functions outside that first subset are regenerated as `JS.Py.Fn2` terms of a richer second subset
+  (`JS/Py/IR2.lean`: `for … else`, `break`, `enumerate`, errors with a `context`, generator
+  expressions; meaning `JS.Py.Fn2.run`, `JS/Py/Interp2.lean`). 36 of the 40 keyword functions are
+  translated: 32 in the first subset (`tie_<fn>`), 4 in the second (`tie2_<fn>`: anyOf, oneOf,
+  properties_draft3, type_draft3). The theorems below say, for each of the 36 translated functions,
+  that the interpreted source and the hand-written model function (`JS/Keywords.lean`, about which every property theorem is proved) are
   the SAME generator: for every oracle environment, draft class, format checker, recursive call,
   keyword value, instance and enclosing schema. A change to the body of one of these functions that
   changes its behaviour on any input therefore breaks one of these theorems on the next run.
@@ -15,16 +19,21 @@
   characters, the model says TypeError), the theorem carries the shape the metaschema demands
   (`Spec.shapeClause`); `…_needs_shape` theorems show the hypothesis is necessary. `schema.isObj`
   holds wherever a keyword function is called (`schemaBody` passes `.obj kvs`).
-  Helper lemmas: JS/Proofs/TieBase.lean, TieA.lean, TieB.lean, TieC.lean; TieCompose.lean for the
+  Helper lemmas: JS/Proofs/TieBase.lean, TieA.lean, TieB.lean, TieC.lean, TieD.lean (`type` and
+  `additionalItems`, whose source uses `a[n:]`, `enumerate(x, start=n)` and the message helpers
+  `types_msg` / `extras_msg` of `_utils`); Tie2J.lean (`anyOf`, `type_draft3`) and Tie2K.lean (`oneOf`,
+  `properties_draft3`) for the second subset; TieCompose.lean for the
   composition (the two evaluators are equal on shaped schemas; last section).
 
-  Not translated (outside the subset of `JS.Py.IR`; tied by the differential correspondence only):
-  additionalProperties, additionalItems, multipleOf, format, ref, type, anyOf, oneOf,
-  properties_draft3, type_draft3.
+  Not translated (outside both subsets; tied by the differential correspondence only):
+  additionalProperties, multipleOf, format, ref.
 -/
 import JS.Proofs.TieA
 import JS.Proofs.TieB
 import JS.Proofs.TieC
+import JS.Proofs.TieD
+import JS.Proofs.Tie2J
+import JS.Proofs.Tie2K
 import JS.Proofs.TieCompose
 namespace JS.Props.Tie
 open JS JS.Py JS.Generated.Source
@@ -149,6 +158,32 @@ theorem tie_extends_draft3 (env : Env) (d : Draft) (fc : Option FormatChecker) (
     Fn.run env (d.cfg fc) rec src_extends_draft3 v inst schema = kwExtendsDraft3 (d.cfg fc) rec v inst :=
   JS.Tie.tie_extends_draft3 env d fc rec v inst schema hv
 
+theorem tie_type (env : Env) (d : Draft) (fc : Option FormatChecker) (rec : Rec) (v inst schema : Json) :
+    Fn.run env (d.cfg fc) rec src_type v inst schema = kwType (d.cfg fc) v inst :=
+  JS.Tie.tie_type env d fc rec v inst schema
+
+theorem tie_additionalItems (env : Env) (d : Draft) (fc : Option FormatChecker) (rec : Rec) (v inst schema : Json) (hs : schema.isObj = true) :
+    Fn.run env (d.cfg fc) rec src_additionalItems v inst schema = kwAdditionalItems (d.cfg fc) rec v inst schema :=
+  JS.Tie.tie_additionalItems env d fc rec v inst schema hs
+
+/-! second subset (`JS.Py.Fn2`, `Fn2.run`) -/
+
+theorem tie2_anyOf (env : Env) (d : Draft) (fc : Option FormatChecker) (rec : Rec) (v inst schema : Json) (hv : ∃ ss, v = .arr ss) :
+    Fn2.run env (d.cfg fc) rec src2_anyOf v inst schema = kwAnyOf rec v inst :=
+  JS.Tie.tie2_anyOf env d fc rec v inst schema hv
+
+theorem tie2_oneOf (env : Env) (d : Draft) (fc : Option FormatChecker) (rec : Rec) (v inst schema : Json) (hv : ∃ ss, v = .arr ss) :
+    Fn2.run env (d.cfg fc) rec src2_oneOf v inst schema = kwOneOf rec v inst :=
+  JS.Tie.tie2_oneOf env d fc rec v inst schema hv
+
+theorem tie2_properties_draft3 (env : Env) (d : Draft) (fc : Option FormatChecker) (rec : Rec) (v inst schema : Json) :
+    Fn2.run env (d.cfg fc) rec src2_properties_draft3 v inst schema = kwPropertiesDraft3 (d.cfg fc) rec v inst schema :=
+  JS.Tie.tie2_properties_draft3 env d fc rec v inst schema
+
+theorem tie2_type_draft3 (env : Env) (d : Draft) (fc : Option FormatChecker) (rec : Rec) (v inst schema : Json) :
+    Fn2.run env (d.cfg fc) rec src2_type_draft3 v inst schema = kwTypeDraft3 (d.cfg fc) rec v inst :=
+  JS.Tie.tie2_type_draft3 env d fc rec v inst schema
+
 /-- the shape hypotheses are necessary: on keyword values the metaschemas forbid, the Python source
     (iterating over a string's characters, over a dict's keys) and the model (TypeError) differ -/
 theorem tie_enum_needs_shape :
@@ -161,17 +196,54 @@ theorem tie_if_needs_shape :
     ¬ ∀ (env : Env) (d : Draft) (fc : Option FormatChecker) (rec : Rec) (v inst schema : Json),
       Fn.run env (d.cfg fc) rec src_if_ v inst schema = kwIf rec v inst schema := JS.Tie.tie_if__needs_shape
 
+theorem tie_additionalItems_needs_shape :
+    ¬ ∀ (env : Env) (d : Draft) (fc : Option FormatChecker) (rec : Rec) (v inst schema : Json),
+      Fn.run env (d.cfg fc) rec src_additionalItems v inst schema = kwAdditionalItems (d.cfg fc) rec v inst schema :=
+  JS.Tie.tie_additionalItems_needs_shape
+
+/-- `anyOf: ""` / `oneOf: {}`: Python enumerates the (zero) characters / keys and reports that no branch
+    was valid; the model says TypeError. Every metaschema demands an array. -/
+theorem tie2_anyOf_needs_shape :
+    ¬ ∀ (env : Env) (d : Draft) (fc : Option FormatChecker) (rec : Rec) (v inst schema : Json),
+      Fn2.run env (d.cfg fc) rec src2_anyOf v inst schema = kwAnyOf rec v inst := JS.Tie.tie2_anyOf_needs_shape
+theorem tie2_oneOf_needs_shape :
+    ¬ ∀ (env : Env) (d : Draft) (fc : Option FormatChecker) (rec : Rec) (v inst schema : Json),
+      Fn2.run env (d.cfg fc) rec src2_oneOf v inst schema = kwOneOf rec v inst := JS.Tie.tie2_oneOf_needs_shape
+
 /-- non-vacuity: the interpreted source of `minItems` on a concrete instance yields one error, as the
     model does -/
 example : (Fn.run default (Draft.d7.cfg none) (fun _ _ => nothing) src_minItems (jnat 2) (.arr [.null]) (.obj []) none default).errs.length = 1 := by
   rw [tie_minItems]; decide +kernel
+
+/-- non-vacuity: `type` with a list of names none of which fits yields one error; `additionalItems:
+    false` beside a one-element `items` array on a three-element instance yields one error, and a
+    schema for the additional items is applied to exactly the two extra elements -/
+example : (Fn.run default (Draft.d7.cfg none) (fun _ _ => nothing) src_type
+    (.arr [.str (skey "string"), .str (skey "null")]) (jnat 1) (.obj []) none default).errs.length = 1 := by
+  rw [tie_type]; decide +kernel
+example : (Fn.run default (Draft.d7.cfg none) (fun _ _ => nothing) src_additionalItems (.bool false)
+    (.arr [jnat 1, jnat 2, jnat 3]) (.obj [(skey "items", .arr [.obj []])]) none default).errs.length = 1 := by
+  rw [tie_additionalItems _ _ _ _ _ _ _ rfl]; decide +kernel
+example : (Fn.run default (Draft.d7.cfg none) (fun _ _ => emit [Err.fresh "x" []]) src_additionalItems (.obj [])
+    (.arr [jnat 1, jnat 2, jnat 3]) (.obj [(skey "items", .arr [.obj []])]) none default).errs.length = 2 := by
+  rw [tie_additionalItems _ _ _ _ _ _ _ rfl]; decide +kernel
+
+/-- non-vacuity, second subset: `anyOf` with two branches on an instance failing both yields ONE error
+    carrying the two branch errors as its context; `oneOf` with two branches both of which accept the
+    instance yields one error ("valid under each of") -/
+example : ((Fn2.run default (Draft.d7.cfg none) (fun _ _ => emit [Err.fresh "x" []]) src2_anyOf
+    (.arr [.obj [], .obj []]) (jnat 1) (.obj []) none default).errs.map (fun e => e.context.length)) = [2] := by
+  rw [tie2_anyOf _ _ _ _ _ _ _ ⟨_, rfl⟩]; decide +kernel
+example : (Fn2.run default (Draft.d7.cfg none) (fun _ _ => nothing) src2_oneOf
+    (.arr [.obj [], .obj []]) (jnat 1) (.obj []) none default).errs.length = 1 := by
+  rw [tie2_oneOf _ _ _ _ _ _ _ ⟨_, rfl⟩]; decide +kernel
 
 /-! ### composition: the two evaluators are equal on every schema of the prescribed shape
 
 `Py.evalSrc` runs the interpreted source of every translated keyword function, `eval` the model's
 functions. On a schema object of the shape the draft's metaschema prescribes (`Spec.shapedR`,
 references allowed), every member's key is bound by the REGENERATED keyword table
-(`Draft.keywords`) to a function whose tie theorem applies — its shape hypothesis is what
+(`Draft.keywords`) to a function whose tie theorem (first or second subset) applies — its shape hypothesis is what
 `Spec.shapedN` demands of that member (`NoCrash.table_ok`, `NoCrash.interp`) — so one layer of the
 two evaluators is the same generator whatever the recursive call. References may designate
 non-schemas, so the full statement is about the GUARDED evaluators (as C03); for reference-free
